@@ -14,10 +14,12 @@ import VaxisModel.Model.DynGenBodies
 import VaxisModel.Lemmas.DynExec
 import VaxisModel.Lemmas.DynExecDraw
 import VaxisModel.Props.C19Tie
+import VaxisModel.Lemmas.DynListInv
 
 namespace VaxisModel.Props.C19Exec
 open VaxisModel.Model VaxisModel.Model.DynExec VaxisModel.Model.DynList
 open VaxisModel.Lemmas.DynExec (expBodies)
+open VaxisModel.Lemmas.DynList
 
 /-- The regenerated bodies parse to the statement trees the execution lemmas are about. -/
 theorem gen_bodies_parsed : genBodies = expBodies := by
@@ -137,5 +139,110 @@ example : (runDraw genBodies (builder [3, 1, 2, 4, 1]) ⟨1, true⟩ { cursor :=
 /-- Non-vacuity: `k` on the second of three items, run from the regenerated body. -/
 example : (runCaptureEvent genBodies (builder [1, 2, 3]) false (keyEv ["'k'"]) { init with cursor := 1, top := 1 }).toOption.map
     (fun r => (r.1.cursor, r.1.top, r.2)) = some (0, 0, true) := by decide +kernel
+
+/-! ### whole histories -/
+
+theorem runHandler_of_proj (body : Stmt) (R : Ro) (s st' : St) (cs' : List Child) (v : Int)
+    (h : Lemmas.DynExec.proj (exec R body 1 (mkM s [] [])) = some (st', cs', .ret [v])) :
+    runHandler body R s = .ok (st', v != 0) := by
+  unfold runHandler
+  cases hr : exec R body 1 (mkM s [] []) with
+  | error e => rw [hr] at h; simp [Lemmas.DynExec.proj] at h
+  | ok r =>
+    obtain ⟨m, c⟩ := r
+    rw [hr] at h
+    simp only [Lemmas.DynExec.proj, Option.some.injEq, Prod.mk.injEq] at h
+    obtain ⟨h1, _, h3⟩ := h
+    subst h3
+    simp [h1]
+
+theorem next_item_body_eq_model (hs : List Nat) (s : St) (hc : s.cursor < 2 ^ 64) :
+    runNextItem genBodies (builder hs) s = .ok (nextItem hs s) := by
+  rw [gen_bodies_parsed]
+  have h := Lemmas.DynExec.next_exec hs false noEv "" (mkM s [] []) 1 hc
+  have := runHandler_of_proj expBodies.nextItem (roSmall expBodies (builder hs) false noEv "") s _ _ _ h
+  have hm : (mkM s [] []).st = s := rfl
+  rw [hm] at this
+  unfold runNextItem
+  rw [this]
+  generalize nextItem hs s = r
+  obtain ⟨a, b⟩ := r
+  cases b <;> simp [bi]
+
+theorem prev_item_body_eq_model (hs : List Nat) (s : St) (hc : s.cursor < 2 ^ 64) :
+    runPrevItem genBodies (builder hs) s = .ok (prevItem hs s) := by
+  rw [gen_bodies_parsed]
+  have h := Lemmas.DynExec.prev_exec hs false noEv "" (mkM s [] []) 1 hc
+  have := runHandler_of_proj expBodies.prevItem (roSmall expBodies (builder hs) false noEv "") s _ _ _ h
+  have hm : (mkM s [] []).st = s := rfl
+  rw [hm] at this
+  unfold runPrevItem
+  rw [this]
+  generalize prevItem hs s = r
+  obtain ⟨a, b⟩ := r
+  cases b <;> simp [bi]
+
+/-- One operation of a history, EXECUTED from the regenerated bodies (`SetCursor` / `SetPendingScroll` through
+    `Model/DynInterp.lean`, everything else through `Model/DynExec.lean`); `none` = panic, stuck or out of fuel. -/
+def stepBody (cfg : Cfg) (hs : List Nat) (s : St) : Op → Option St
+  | .setCursor c => (DynInterp.runMethod hs Gen.DynSkel.ensureScroll Gen.DynSkel.setCursor s c).map (·.st)
+  | .next => (runNextItem genBodies (builder hs) s).toOption.map (·.1)
+  | .prev => (runPrevItem genBodies (builder hs) s).toOption.map (·.1)
+  | .wheelDown => (runHandleEvent genBodies (builder hs) false wheelDownEv s).toOption.map (·.1)
+  | .wheelUp => (runHandleEvent genBodies (builder hs) false wheelUpEv s).toOption.map (·.1)
+  | .pending k => (DynInterp.runMethod hs Gen.DynSkel.ensureScroll Gen.DynSkel.setPendingScroll s k).map (·.st)
+  | .draw W H => (runDraw genBodies (builder hs) cfg s W H (drawFuel hs s H)).toOption.map (·.1)
+
+/-- A history with item replacement, executed from the regenerated bodies. -/
+def runBodyH (cfg : Cfg) : List Nat → St → List HOp → Option (List Nat × St)
+  | hs, s, [] => some (hs, s)
+  | _, s, .items hs' :: ops => runBodyH cfg hs' s ops
+  | hs, s, .op o :: ops =>
+    match stepBody cfg hs s o with
+    | some s' => runBodyH cfg hs s' ops
+    | none => none
+
+theorem step_body_eq_model (cfg : Cfg) (hs : List Nat) (s : St) (op : Op) (hc : s.cursor < 2 ^ 64) (ht : s.top < 2 ^ 64)
+    (hlen : hs.length < 2 ^ 64) (ho : OpOk op) :
+    stepBody cfg hs s op = (step Facts.fixed cfg hs s op).toOption := by
+  cases op with
+  | setCursor c => exact (C19Tie.interp_setters hs s c ho 0).1
+  | next => simp only [stepBody, next_item_body_eq_model hs s hc]; rfl
+  | prev => simp only [stepBody, prev_item_body_eq_model hs s hc]; rfl
+  | wheelDown => simp only [stepBody, handle_event_body_eq_model]; rfl
+  | wheelUp => simp only [stepBody, handle_event_body_eq_model]; rfl
+  | pending k => exact (C19Tie.interp_setters hs s 0 (by decide) k).2
+  | draw W H =>
+    simp only [stepBody, step, draw_body_eq_model hs cfg s W H _ ht hlen (Nat.le_refl _)]
+    cases draw Facts.fixed cfg hs s W H <;> rfl
+
+/-- **Every history, executed from the regenerated bodies, is the model's history and never fails**: for
+    every gap ≥ 0, every initial builder and every finite history of SetCursor / NextItem / PrevItem / wheel /
+    SetPendingScroll / Draw interleaved with replacements of the Builder's items, running each operation from
+    the regenerated body of its method gives exactly the states of `DynList.runH` — so no operation panics, gets
+    stuck in the interpreter or runs out of fuel (`dyn_no_panic` for the EXECUTED code), and every theorem of
+    `Props/C19.lean` about histories speaks about the executed bodies. -/
+theorem history_body_eq_model (cfg : Cfg) (hgap : 0 ≤ cfg.gap) : ∀ (ops : List HOp) (hs : List Nat) (s : St),
+    hs.length < 2 ^ 63 → Lemmas.DynList.Inv s → (∀ op ∈ ops, HOpOk op) →
+    runBodyH cfg hs s ops = (runH Facts.fixed cfg hs s ops).toOption ∧ (runBodyH cfg hs s ops).isSome = true
+  | [], hs, s, _, _, _ => ⟨rfl, rfl⟩
+  | .items hs' :: ops, hs, s, _, hi, ho => by
+    have h1 : HOpOk (.items hs') := ho _ List.mem_cons_self
+    exact history_body_eq_model cfg hgap ops hs' s h1 hi (fun o h => ho o (List.mem_cons_of_mem _ h))
+  | .op o :: ops, hs, s, hl, hi, ho => by
+    have hok : OpOk o := ho _ List.mem_cons_self
+    obtain ⟨s1, he, hi1⟩ := step_inv cfg hgap hs hl s o hi hok
+    have hsb := step_body_eq_model cfg hs s o (by have := hi.cur_ok; unfold U at this; exact this)
+      (by have := hi.top_ok; omega) (by omega) hok
+    rw [he] at hsb
+    have ih := history_body_eq_model cfg hgap ops hs s1 hl hi1 (fun o h => ho o (List.mem_cons_of_mem _ h))
+    simp only [runBodyH, runH, hsb, he]
+    exact ih
+
+/-- Non-vacuity: a history with the cursor gutter, a gap, an upward scroll and an item replacement, executed
+    from the regenerated bodies. -/
+example : (runBodyH ⟨1, true⟩ [3, 1, 2, 4] init
+      [.op (.setCursor 3), .op (.draw 10 4), .op .wheelUp, .op (.pending (-2)), .op (.draw 10 4), .items [1, 1], .op .prev, .op (.draw 10 4)]).map
+    (fun r => (r.2.cursor, r.2.top, r.2.offset)) = some (3, 1, 0) := by decide +kernel
 
 end VaxisModel.Props.C19Exec
